@@ -28,6 +28,9 @@ package redis
 //@ ensures[ping-passthrough] ret0 == ret(Ping)
 
 //@ func NewRedisSessionStore
+//@ prop C13 C09 C19
+//@ at call NewManager assert[nonnil:store-over-the-built-client] typeis(arg(NewManager, 0), "*SessionStore")
+//@     && as(arg(NewManager, 0), "*SessionStore").Client == ret0(NewRedisClient) && ret1(NewRedisClient) == nil && ret0(NewRedisClient) != nil
 //@ prop C13 C09
 //@ ensures[manager-over-this-redis-store-with-the-cookie-options] ret1 == nil ==> called(NewManager) && arg(NewManager, 1) == cookieOpts
 //@ ensures[client-error-is-an-error] ret1(NewRedisClient) != nil ==> ret1 != nil && ret0 == nil
@@ -100,3 +103,31 @@ package redis
 //@ func (*clusterClient).Lock
 //@ prop C13 C12
 //@ ensures[a-lock-for-this-key] result == ret(NewLock) && arg(NewLock, 1) == key
+
+//@ prop C19 C13
+//@ scan[nonnil:redis-store-allocated-by-its-constructor] alloc-of pkg/sessions/redis.SessionStore pkg/sessions/redis.NewRedisSessionStore
+
+//@ func NewRedisClient
+//@ prop C19 C13
+//@ ensures[nonnil:a-client-or-an-error] ret1 == nil ==> ret0 != nil
+
+//@ func newClient
+//@ prop C19 C13
+//@ fresh
+//@ ensures[nonnil:wrapper-over-the-given-client] result != nil && typeis(result, "*client") && as(result, "*client").Client == c
+//@ func newClusterClient
+//@ prop C19 C13
+//@ fresh
+//@ ensures[nonnil:wrapper-over-the-given-cluster-client] result != nil && typeis(result, "*clusterClient") && as(result, "*clusterClient").ClusterClient == c
+//@ func buildSentinelClient
+//@ shallow
+//@ prop C19 C13
+//@ ensures[nonnil:a-client-or-an-error] ret1 == nil ==> ret0 != nil
+//@ func buildClusterClient
+//@ shallow
+//@ prop C19 C13
+//@ ensures[nonnil:a-client-or-an-error] ret1 == nil ==> ret0 != nil
+//@ func buildStandaloneClient
+//@ shallow
+//@ prop C19 C13
+//@ ensures[nonnil:a-client-or-an-error] ret1 == nil ==> ret0 != nil
